@@ -3,6 +3,7 @@
 mod common;
 use common::*;
 use affinitree::pwl::afftree::AffTree;
+use affinitree::pwl::node::NodeState;
 use ndarray::Array1;
 use std::panic::AssertUnwindSafe;
 
@@ -58,19 +59,52 @@ fn one_case<const K: usize>(r: &mut Rng, id: usize, out: &mut String) {
         term_pool: 0,
     };
     let cfg_g = TreeCfg { depth: r.below(maxd + 1), ..cfg_f };
-    let f: AffTree<K> = gen_tree(r, n, m, cfg_f);
+    let mut f: AffTree<K> = gen_tree(r, n, m, cfg_f);
+    // the un-pruned composition must not look at cached feasibility states: every third left operand carries
+    // arbitrary ones (also ones that no elimination would produce)
+    if r.chance(1, 3) {
+        let idxs: Vec<usize> = f.tree.node_indices().collect();
+        for i in idxs {
+            let st = match r.below(5) {
+                0 => NodeState::Infeasible,
+                1 => NodeState::Feasible,
+                2 => NodeState::FeasibleWitness(vec![gen_point(r, n)]),
+                _ => NodeState::Indeterminate,
+            };
+            f.tree.node_value_mut(i).unwrap().state = st;
+        }
+    }
+    // every sixth case has coefficients of very different magnitude, arranged so that every product the code forms is
+    // exact in f64 (terminals of f: selections with entries +-2^{-30,0,30} and zero bias; g: entries scaled by 2^+-30);
+    // evaluate() would round on such trees, so these cases are decided on the trees alone (no sample points)
+    let wide = r.chance(1, 6);
+    if wide {
+        let ts: Vec<usize> = f.tree.terminal_indices().collect();
+        for i in ts {
+            let sel = gen_aff_selection(r, m, n);
+            f.update_node(i, sel).unwrap();
+        }
+    }
     let kind = r.below(10);
     if kind < 8 {
         // with probability 1/12 a dimension mismatch (malformed stream)
         let gm = if r.chance(1, 12) { m + 1 } else { m };
-        let g: AffTree<K> = gen_tree(r, gm, k, cfg_g);
+        let mut g: AffTree<K> = gen_tree(r, gm, k, cfg_g);
+        if wide {
+            let ids: Vec<usize> = g.tree.node_indices().collect();
+            for i in ids {
+                let mut a = g.tree.node_value(i).unwrap().aff.clone();
+                widen(r, &mut a);
+                g.update_node(i, a).unwrap();
+            }
+        }
         let g_before = sx_tree(&g);
         let mut h = f.clone();
         let res = catch(AssertUnwindSafe(|| h.compose::<false, false>(&g)));
         let g_after = sx_tree(&g);
         let (oc, dump, pts) = match res {
             Ok(()) => {
-                let pts = gen_points(r, &h, 6);
+                let pts = if wide { Vec::new() } else { gen_points(r, &h, 6) };
                 let ps: Vec<String> = pts.iter().map(|x| sx_eval(&h, x)).collect();
                 ("ok", sx_tree(&h), ps.join(" "))
             }
@@ -89,12 +123,15 @@ fn one_case<const K: usize>(r: &mut Rng, id: usize, out: &mut String) {
         ));
     } else {
         let am = if r.chance(1, 12) { m + 1 } else { m };
-        let a = gen_aff(r, k, am, 6);
+        let mut a = gen_aff(r, k, am, 6);
+        if wide {
+            widen(r, &mut a);
+        }
         let mut h = f.clone();
         let res = catch(AssertUnwindSafe(|| h.apply_func(&a)));
         let (oc, dump, pts) = match res {
             Ok(()) => {
-                let pts = gen_points(r, &h, 6);
+                let pts = if wide { Vec::new() } else { gen_points(r, &h, 6) };
                 let ps: Vec<String> = pts.iter().map(|x| sx_eval(&h, x)).collect();
                 ("ok", sx_tree(&h), ps.join(" "))
             }
